@@ -376,7 +376,22 @@ def rule_nonetruth(ctx):
     yield from common.rule_nonetruth(ctx, "C13.NONETRUTH", ("util.py", "chord.py", "segment.py", "hierarchy.py", "sonify.py"))
 
 
+def rule_sonifypass(ctx):
+    """sonify.chords hands the chord intervals to sonify.chroma as they are: intervals with gaps are not the
+    boundaries-to-intervals image of anything, so a round trip through boundaries re-assigns every chord after a gap."""
+    R = "C13.SONIFYPASS"
+    f = ctx.program.func("sonify.chords", R)
+    s = ctx.S.get(f.qual)
+    calls = [c for c in s.calls() if c.callee == "sonify.chroma"]
+    need(len(calls) == 1 and len(calls[0].args) >= 2, R, "sonify.chords: the sonify.chroma call was not found")
+    a = calls[0].args[1]
+    good = a.op == "param" and a.a[0] == "intervals"
+    yield ob(R, f, "sonify.chords:intervals-as-given", good, "chroma() receives the caller's intervals" if good else "chroma() receives %s instead of the caller's intervals" % tm.show(a, 3), node=calls[0].node)
+
+
 RULES = [
+    ("C13.SONIFYPASS", 1, rule_sonifypass),
+    ("C13.HELPERDEFAULTS", 3, common.rule_helperdefaults("C13.HELPERDEFAULTS")),
     ("C13.NONETRUTH", 5, rule_nonetruth),
     ("C13.SAMPLETWIN", 8, common.shared("c16", "rule_sampletwin", "C13.SAMPLETWIN")),
     ("C13.LOOPCOMPLETE", 2, rule_loopcomplete),
